@@ -40,7 +40,7 @@ ASSUMPTIONS = [
     "reproducibility clause: every path witness is additionally run twice natively with the real Random(seed) and compared",
 ]
 STUBS = ["<module>.Random := SymRandom", "<module>.exp := symbolic exp", "solvor.bayesian.nelder_mead := arbitrary in-bounds candidate", "solvor.bayesian.erf/exp := uninterpreted on symbolic arguments"]
-GOALS = {"quick": ["anneal.uphill_accepted_after_best", "tabu.run", "lns.run", "alns.run", "evolve.run", "de.run", "pso.run", "nm.run", "powell.run", "bfgs.run", "bayes.run", "mirror.checked",
+GOALS = {"quick": ["anneal.uphill_accepted_after_best", "tabu.run", "lns.run", "alns.run", "evolve.run", "de.run", "pso.run", "nm.run", "de.init", "pso.init", "stop.requested", "powell.run", "bfgs.run", "bayes.run", "mirror.checked",
                    "repro.checked"],
          "thorough": ["anneal.uphill_accepted_after_best", "tabu.run", "lns.run", "alns.run", "evolve.run"]}
 OPTS = {"quick": {"path_wall": 30.0}, "thorough": {"path_wall": 60.0}}
@@ -138,7 +138,7 @@ def table_objective(s, obj):
 
 
 # ------------------------------------------------------------------------------------------ anneal
-def h_anneal(s, max_iter, minimize, cooling, revisit):
+def h_anneal(s, max_iter, minimize, cooling, revisit, stop=0):
     mod = importlib.import_module("solvor.anneal")
 
     def nb(p):
@@ -150,7 +150,7 @@ def h_anneal(s, max_iter, minimize, cooling, revisit):
     def run(mn, flip):
         obj = Obj(s, flip)
         s.patch(mod, Random=SymRandom(s), exp=ExpStub(s))
-        res = mod.anneal(0, obj, nb, minimize=mn, temperature=temp0, cooling=cool, min_temp=0.01, max_iter=max_iter, seed=3)
+        res = mod.anneal(0, obj, nb, minimize=mn, temperature=temp0, cooling=cool, min_temp=0.01, max_iter=max_iter, seed=3, **_stop_kw(stop))
         return res, obj
 
     if minimize:
@@ -165,11 +165,12 @@ def h_anneal(s, max_iter, minimize, cooling, revisit):
         s.goal("anneal.uphill_accepted_after_best")
     s._restore()
     tab = table_objective(s, obj) if not s.symbolic else None
-    repro(s, "anneal", lambda: mod.anneal(0, tab, nb, minimize=minimize, temperature=float(temp0), cooling=cool, min_temp=0.01, max_iter=max_iter, seed=3))
+    repro(s, "anneal", lambda: mod.anneal(0, tab, nb, minimize=minimize, temperature=float(temp0), cooling=cool, min_temp=0.01, max_iter=max_iter, seed=3,
+                                         **_stop_kw(stop)))
 
 
 # ------------------------------------------------------------------------------------------ tabu
-def h_tabu(s, max_iter, minimize, width, revisit):
+def h_tabu(s, max_iter, minimize, width, revisit, stop=0):
     mod = importlib.import_module("solvor.tabu")
     cooldown = s.concrete(s.int("cooldown", 1, 3))  # deque(maxlen=...) needs a real int
 
@@ -181,7 +182,7 @@ def h_tabu(s, max_iter, minimize, width, revisit):
     def run(mn, flip):
         obj = Obj(s, flip)
         s.patch(mod, Random=SymRandom(s))
-        res = mod.tabu_search(0, obj, nbs, minimize=mn, cooldown=cooldown, max_iter=max_iter, max_no_improve=2, seed=3)
+        res = mod.tabu_search(0, obj, nbs, minimize=mn, cooldown=cooldown, max_iter=max_iter, max_no_improve=2, seed=3, **_stop_kw(stop))
         return res, obj
 
     if minimize:
@@ -189,6 +190,9 @@ def h_tabu(s, max_iter, minimize, width, revisit):
     else:
         res, obj = mirror(s, "tabu", run)
     common_obligations(s, "tabu", res, obj, minimize)
+    s.check(better_eq(res.objective, obj.value(0), minimize), "tabu.at_least_as_good_as_the_starting_point")
+    if stop:
+        s.goal("stop.requested")
     s.goal("tabu.run")
     s.observe("solution", res.solution)
     s.observe("objective", res.objective)
@@ -196,11 +200,11 @@ def h_tabu(s, max_iter, minimize, width, revisit):
     if not s.symbolic:
         tab = table_objective(s, obj)
         cd = int(s.assignment.get("cooldown", 1))
-        repro(s, "tabu", lambda: mod.tabu_search(0, tab, nbs, minimize=minimize, cooldown=cd, max_iter=max_iter, max_no_improve=2, seed=3))
+        repro(s, "tabu", lambda: mod.tabu_search(0, tab, nbs, minimize=minimize, cooldown=cd, max_iter=max_iter, max_no_improve=2, seed=3, **_stop_kw(stop)))
 
 
 # ------------------------------------------------------------------------------------------ lns / alns
-def h_lns(s, max_iter, minimize, accept, revisit):
+def h_lns(s, max_iter, minimize, accept, revisit, stop=0):
     mod = importlib.import_module("solvor.lns")
     ctr = [0]
 
@@ -223,7 +227,7 @@ def h_lns(s, max_iter, minimize, accept, revisit):
         obj = Obj(s, flip)
         s.patch(mod, Random=SymRandom(s), exp=ExpStub(s))
         res = mod.lns(0, obj, destroy, repair, minimize=mn, accept=accept, start_temp=start_temp, cooling_rate=0.5, max_iter=max_iter,
-                      max_no_improve=3, seed=1)
+                      max_no_improve=3, seed=1, **_stop_kw(stop))
         return res, obj
 
     if minimize:
@@ -241,11 +245,11 @@ def h_lns(s, max_iter, minimize, accept, revisit):
         def nat():
             ctr[0] = 0
             return mod.lns(0, tab, destroy, repair, minimize=minimize, accept=accept, start_temp=float(start_temp), cooling_rate=0.5,
-                           max_iter=max_iter, max_no_improve=3, seed=1)
+                           max_iter=max_iter, max_no_improve=3, seed=1, **_stop_kw(stop))
         repro(s, "lns", nat)
 
 
-def h_alns(s, max_iter, minimize, accept):
+def h_alns(s, max_iter, minimize, accept, stop=0):
     mod = importlib.import_module("solvor.lns")
     ctr = [0]
 
@@ -269,7 +273,7 @@ def h_alns(s, max_iter, minimize, accept):
         obj = Obj(s, flip)
         s.patch(mod, Random=SymRandom(s), exp=ExpStub(s))
         res = mod.alns(0, obj, [d0, d1], [r0, r1], minimize=mn, accept=accept, start_temp=start_temp, cooling_rate=0.5, segment_size=2,
-                       max_iter=max_iter, max_no_improve=3, seed=1)
+                       max_iter=max_iter, max_no_improve=3, seed=1, **_stop_kw(stop))
         return res, obj
 
     if minimize:
@@ -283,7 +287,7 @@ def h_alns(s, max_iter, minimize, accept):
 
 
 # ------------------------------------------------------------------------------------------ evolve
-def h_evolve(s, pop_size, gens, minimize, elite, adaptive):
+def h_evolve(s, pop_size, gens, minimize, elite, adaptive, stop=0):
     mod = importlib.import_module("solvor.genetic")
     ctr = [0]
 
@@ -299,7 +303,7 @@ def h_evolve(s, pop_size, gens, minimize, elite, adaptive):
         obj = Obj(s, flip)
         s.patch(mod, Random=SymRandom(s))
         res = mod.evolve(obj, list(range(pop_size)), crossover, mutate, minimize=mn, elite_size=elite, mutation_rate=0.5,
-                         adaptive_mutation=adaptive, max_iter=gens, tournament_k=2, seed=5)
+                         adaptive_mutation=adaptive, max_iter=gens, tournament_k=2, seed=5, **_stop_kw(stop))
         return res, obj
 
     if minimize:
@@ -317,7 +321,7 @@ def h_evolve(s, pop_size, gens, minimize, elite, adaptive):
         def nat():
             ctr[0] = 0
             return mod.evolve(tab, list(range(pop_size)), crossover, mutate, minimize=minimize, elite_size=elite, mutation_rate=0.5,
-                              adaptive_mutation=adaptive, max_iter=gens, tournament_k=2, seed=5)
+                              adaptive_mutation=adaptive, max_iter=gens, tournament_k=2, seed=5, **_stop_kw(stop))
         repro(s, "evolve", nat)
 
 
@@ -341,14 +345,32 @@ def _pkey(p):
     return tuple(round(float(x), 9) for x in p)
 
 
-def h_de(s, iters, minimize, strategy):
+def _stop_kw(stop):
+    """on_progress callback asking to stop at the `stop`-th report (progress_interval=1): the early-exit Result of every solver."""
+    if not stop:
+        return {}
+    seen = [0]
+
+    def cb(progress):
+        seen[0] += 1
+        return seen[0] >= stop
+    return {"on_progress": cb, "progress_interval": 1}
+
+
+def h_de(s, iters, minimize, strategy, init=False, stop=0, pop=4):
     mod = importlib.import_module("solvor.differential_evolution")
     bounds = [(-1.0, 2.0), (0.0, 1.0)]
+    # user-supplied starting points (one outside the box: documented to be clipped); "at least as good as the starting point(s)"
+    starts = [[5.0, 0.5], [0.25, 0.25]] if init else []
+    clipped = [[max(lo, min(hi, x)) for x, (lo, hi) in zip(p, bounds)] for p in starts]
 
     def run(mn, flip):
         obj = Obj(s, flip, key=lambda p: tuple(str(x).replace("-", "m").replace(".", "p") for x in _pkey(p)))
         s.patch(mod, Random=HalfSymRandom(s))
-        res = mod.differential_evolution(obj, bounds, minimize=mn, population_size=4, max_iter=iters, seed=2, strategy=strategy, tol=0.0)
+        kw = dict(_stop_kw(stop))
+        if init:
+            kw["initial_population"] = [list(p) for p in starts]
+        res = mod.differential_evolution(obj, bounds, minimize=mn, population_size=pop, max_iter=iters, seed=2, strategy=strategy, tol=0.0, **kw)
         return res, obj
 
     if minimize:
@@ -356,6 +378,11 @@ def h_de(s, iters, minimize, strategy):
     else:
         res, obj = mirror(s, "de", run)
     common_obligations(s, "de", res, obj, minimize)
+    if init:
+        s.check(AND([better_eq(res.objective, obj.value(p), minimize) for p in clipped]), "de.at_least_as_good_as_the_starting_points")
+        s.goal("de.init")
+    if stop:
+        s.goal("stop.requested")
     sol = res.solution
     s.check(all(lo - 1e-12 <= x <= hi + 1e-12 for x, (lo, hi) in zip(sol, bounds)), "de.solution_inside_bounds", detail=repr(sol))
     s.check(all(all(lo - 1e-12 <= x <= hi + 1e-12 for x, (lo, hi) in zip(p, bounds)) for p in obj.calls), "de.every_evaluated_point_inside_bounds")
@@ -364,9 +391,11 @@ def h_de(s, iters, minimize, strategy):
     s.observe("objective", res.objective)
 
 
-def h_pso(s, iters, minimize):
+def h_pso(s, iters, minimize, init=False, decay=False, stop=0):
     mod = importlib.import_module("solvor.particle_swarm")
     bounds = [(-1.0, 2.0), (0.0, 1.0)]
+    starts = [[5.0, 0.5], [0.25, 0.25]] if init else []
+    clipped = [[max(lo, min(hi, x)) for x, (lo, hi) in zip(p, bounds)] for p in starts]
 
     class PsoRandom(HalfSymRandom):
         def random(self):  # PSO multiplies random() into velocities: keep those draws concrete too
@@ -375,7 +404,12 @@ def h_pso(s, iters, minimize):
     def run(mn, flip):
         obj = Obj(s, flip, key=lambda p: tuple(str(x).replace("-", "m").replace(".", "p") for x in _pkey(p)))
         s.patch(mod, Random=PsoRandom(s))
-        res = mod.particle_swarm(obj, bounds, minimize=mn, n_particles=3, max_iter=iters, seed=2)
+        kw = dict(_stop_kw(stop))
+        if init:
+            kw["initial_positions"] = [list(p) for p in starts]
+        if decay:
+            kw["inertia_decay"] = 0.25
+        res = mod.particle_swarm(obj, bounds, minimize=mn, n_particles=3, max_iter=iters, seed=2, **kw)
         return res, obj
 
     if minimize:
@@ -383,6 +417,11 @@ def h_pso(s, iters, minimize):
     else:
         res, obj = mirror(s, "pso", run)
     common_obligations(s, "pso", res, obj, minimize)
+    if init:
+        s.check(AND([better_eq(res.objective, obj.value(p), minimize) for p in clipped]), "pso.at_least_as_good_as_the_starting_points")
+        s.goal("pso.init")
+    if stop:
+        s.goal("stop.requested")
     sol = res.solution
     s.check(all(lo - 1e-12 <= x <= hi + 1e-12 for x, (lo, hi) in zip(sol, bounds)), "pso.solution_inside_bounds", detail=repr(sol))
     s.goal("pso.run")
@@ -390,13 +429,13 @@ def h_pso(s, iters, minimize):
     s.observe("objective", res.objective)
 
 
-def h_nm(s, dim, iters, minimize):
+def h_nm(s, dim, iters, minimize, adaptive=False, stop=0):
     mod = importlib.import_module("solvor.nelder_mead")
     x0 = [0.5] * dim
 
     def run(mn, flip):
         obj = Obj(s, flip, key=lambda p: tuple(str(x).replace("-", "m").replace(".", "p") for x in _pkey(p)))
-        res = mod.nelder_mead(obj, x0, minimize=mn, max_iter=iters, tol=0.0)
+        res = mod.nelder_mead(obj, x0, minimize=mn, max_iter=iters, tol=0.0, adaptive=adaptive, **_stop_kw(stop))
         return res, obj
 
     if minimize:
@@ -404,6 +443,9 @@ def h_nm(s, dim, iters, minimize):
     else:
         res, obj = mirror(s, "nm", run)
     common_obligations(s, "nm", res, obj, minimize)
+    s.check(better_eq(res.objective, obj.value(x0), minimize), "nm.at_least_as_good_as_the_starting_point")
+    if stop:
+        s.goal("stop.requested")
     s.goal("nm.run")
     s.observe("solution", [float(x) for x in res.solution])
     s.observe("objective", res.objective)
@@ -414,7 +456,7 @@ def _fkey(p):
     return tuple(str(x).replace("-", "m").replace(".", "p").replace("e", "E").replace("+", "") for x in _pkey(p))
 
 
-def h_powell(s, dim, minimize, bounded, iters=1):
+def h_powell(s, dim, minimize, bounded, iters=1, stop=0):
     """Positions only depend on comparisons of objective values (bracketing + golden section), so they stay concrete while every objective
     value is symbolic. Clause: the reported objective is the objective of exactly the point returned."""
     mod = importlib.import_module("solvor.powell")
@@ -426,7 +468,7 @@ def h_powell(s, dim, minimize, bounded, iters=1):
               "pin_first": [(0.5, 0.5)] + [(-1.0, 1.0)] * (dim - 1),
               "pin_all": [(0.5, 0.5), (-0.75, -0.75)][:dim]}
     bounds = shapes[bounded]
-    res = mod.powell(obj, x0, minimize=minimize, bounds=bounds, max_iter=iters, tol=1e-6)
+    res = mod.powell(obj, x0, minimize=minimize, bounds=bounds, max_iter=iters, tol=1e-6, **_stop_kw(stop))
     s.check(res.objective == obj.value(res.solution), "powell.objective_is_f_of_returned_solution")
     if bounds:
         s.check(all(lo - 1e-12 <= v <= hi + 1e-12 for v, (lo, hi) in zip(res.solution, bounds)), "powell.solution_inside_bounds", detail=repr(res.solution))
@@ -435,7 +477,7 @@ def h_powell(s, dim, minimize, bounded, iters=1):
     s.observe("objective", res.objective)
 
 
-def h_bfgs(s, variant, minimize, iters):
+def h_bfgs(s, variant, minimize, iters, stop=0):
     """Gradient = gradient of a fixed concrete quadratic (positions then depend only on the Armijo decisions, which compare SYMBOLIC objective
     values): the objective is an arbitrary function, unrelated to the gradient - the bookkeeping clause must hold regardless."""
     mod = importlib.import_module("solvor.bfgs")
@@ -447,6 +489,7 @@ def h_bfgs(s, variant, minimize, iters):
 
     fn = getattr(mod, variant)
     kw = {"m": 2} if variant == "lbfgs" else {}
+    kw.update(_stop_kw(stop))
     res = fn(grad, [0.5, -0.5], minimize=minimize, objective_fn=obj, max_iter=iters, tol=1e-9, **kw)
     s.check(res.objective == obj.value(res.solution), variant + ".objective_is_f_of_returned_solution")
     s.goal("bfgs.run")
@@ -525,9 +568,24 @@ def items(tier, rng):
                 add("evolve", "h_evolve", {"pop_size": 3 + x, "gens": 2, "minimize": mn, "elite": elite, "adaptive": adaptive})
         for strategy in ("rand/1", "best/1"):
             add("de", "h_de", {"iters": 1 + x, "minimize": mn, "strategy": strategy})
+            add("de_init", "h_de", {"iters": 1 + x, "minimize": mn, "strategy": strategy, "init": True})
+        add("de_2diffs", "h_de", {"iters": 1, "minimize": mn, "strategy": "rand/2", "pop": 6})
+        add("de_stop", "h_de", {"iters": 3, "minimize": mn, "strategy": "best/1", "init": True, "stop": 1}, mp=150 if q else 1500)
         add("pso", "h_pso", {"iters": 1 + x, "minimize": mn})
+        add("pso_init", "h_pso", {"iters": 1 + x, "minimize": mn, "init": True, "decay": True})
+        add("pso_stop", "h_pso", {"iters": 3, "minimize": mn, "init": True, "stop": 2}, mp=150 if q else 1500)
         for dim in (1, 2):
             add("nm", "h_nm", {"dim": dim, "iters": 2 + x, "minimize": mn})
+        add("nm_adaptive", "h_nm", {"dim": 2, "iters": 2 + x, "minimize": mn, "adaptive": True})
+        add("nm_stop", "h_nm", {"dim": 2, "iters": 4, "minimize": mn, "stop": 2}, mp=150 if q else 1500)
+        add("anneal_stop", "h_anneal", {"max_iter": 4, "minimize": mn, "cooling": "default", "revisit": False, "stop": 2}, mp=200 if q else 2000)
+        add("lns_stop", "h_lns", {"max_iter": 3, "minimize": mn, "accept": "simulated_annealing", "revisit": False, "stop": 2}, mp=200 if q else 2000)
+        add("alns_stop", "h_alns", {"max_iter": 3, "minimize": mn, "accept": "simulated_annealing", "stop": 2}, mp=200 if q else 2000)
+        add("evolve_stop", "h_evolve", {"pop_size": 3, "gens": 3, "minimize": mn, "elite": 1, "adaptive": True, "stop": 2}, mp=200 if q else 2000)
+        add("powell_stop", "h_powell", {"dim": 2, "minimize": mn, "bounded": "box", "iters": 2, "stop": 1}, mp=100 if q else 1500)
+        add("bfgs_stop", "h_bfgs", {"variant": "bfgs", "minimize": mn, "iters": 3, "stop": 2}, mp=100 if q else 1500)
+        add("lbfgs_stop", "h_bfgs", {"variant": "lbfgs", "minimize": mn, "iters": 3, "stop": 2}, mp=100 if q else 1500)
+        add("tabu_stop", "h_tabu", {"max_iter": 4, "minimize": mn, "width": 2, "revisit": False, "stop": 2}, mp=200 if q else 2000)
         for dim in (1, 2):
             for bounded in (False, "box", "pin_last", "pin_first", "pin_all"):
                 if dim == 1 and bounded in ("pin_first", "pin_all"):
